@@ -200,7 +200,9 @@ func c15Getters(e *Env) {
 	r.Floor(rule, nCases, 24, "tag cases with getter assignments")
 	// getter bodies read their own source
 	src := map[string]func(f *types.Func) bool{
-		"path":     func(f *types.Func) bool { return f.Name() == "Get" && recvNamed(f) != nil && recvNamed(f).Obj().Name() == "Params" },
+		"path": func(f *types.Func) bool {
+			return f.Name() == "Get" && recvNamed(f) != nil && recvNamed(f).Obj().Name() == "Params"
+		},
 		"postForm": func(f *types.Func) bool { return esp.Is(f, pkgProto, "Request", "PostArgs") },
 		"query":    func(f *types.Func) bool { return esp.Is(f, pkgProto, "URI", "QueryArgs") },
 		"cookie":   func(f *types.Func) bool { return esp.Is(f, pkgProto, "RequestHeader", "Cookie") },
@@ -316,9 +318,26 @@ func c15Cache(e *Env) {
 	const rule = "C15.cache"
 	w, r := e.W, e.R
 	r.Explainf("C15.cache: in each bind function of the default binder the cache is selected with the same tag variable that GetReqDecoder receives, Load and Store use the same key variable, the cached and the freshly built decoder are invoked with identical arguments, validation (where the function validates) happens on both paths under the stored/returned needValidate flag; tagCache returns a distinct sync.Map field for each tag constant.")
-	tc := w.Func(relBinding, "defaultBinder", "tagCache")
-	if tc == nil {
-		r.Anchor(rule, "binding.defaultBinder.tagCache")
+	// the cache selector is found by role: the method of defaultBinder that takes the tag
+	// (one string) and returns a *sync.Map
+	var tc *core.FuncInfo
+	nSel := 0
+	for _, fi := range declaredNonTest(w) {
+		rn := recvNamed(fi.Obj)
+		if rn == nil || rn.Obj().Name() != "defaultBinder" || w.RelPkg(fi.Obj.Pkg()) != relBinding {
+			continue
+		}
+		sig := fi.Obj.Type().(*types.Signature)
+		if sig.Params().Len() != 1 || sig.Results().Len() != 1 || !types.Identical(sig.Params().At(0).Type(), types.Typ[types.String]) {
+			continue
+		}
+		if strings.HasSuffix(sig.Results().At(0).Type().String(), "*sync.Map") {
+			tc = fi
+			nSel++
+		}
+	}
+	if tc == nil || nSel != 1 {
+		r.Anchor(rule, fmt.Sprintf("the method of binding.defaultBinder selecting the decoder cache for a tag: func(string) *sync.Map (found %d)", nSel))
 		return
 	}
 	{
